@@ -37,6 +37,13 @@ class EngineLimit(Exception):
     """The real code did something the proxies/stubs do not model: the obligation is *undecided*."""
 
 
+def documented(exc):
+    """an error a stub raises *on purpose* because the modelled dependency documents it (it is part of
+    the assumed contract); anything else raised from inside /verif while real code runs is a checker bug"""
+    exc.__vt_documented__ = True
+    return exc
+
+
 class Assumed:
     """Registry of assumed contracts actually exercised in this run (printed into evidence)."""
 
